@@ -237,6 +237,11 @@ def mfd_min(columns, demand, wt=int, cons_cols=None, kmax=None):
     return _num(o.model(), tot)
 
 
+def _bitcap(bound):
+    import math
+    return 2 ** max(0, math.ceil(math.log2(float(bound) + 1))) - 1
+
+
 def lae_min(columns, demand, k, wt=int, scale=None, superset=None, cons_cols=None, prod_cap=None):
     """min sum_e scale_e*|f_e - sum_i w_i col_i[e]| using at most k selected columns. superset: multiset of allowed
     weights, each usable at most once (then k bounds the number of non-empty paths)."""
@@ -250,8 +255,14 @@ def lae_min(columns, demand, k, wt=int, scale=None, superset=None, cons_cols=Non
             o.add(w >= 0, z3.Implies(w > 0, y))
         if prod_cap is not None:
             # mimic a model that bounds every product multiplicity*weight (used only to classify a finding by mechanism)
+            # (the library's integer x continuous product helper also derives the bit width of the multiplicity from that bound:
+            #  multiplicity <= 2^ceil(log2(bound+1)) - 1; only elements with a demand, i.e. non-ignored ones, get a product)
+            bitcap = _bitcap(prod_cap)
             for i, c in enumerate(columns):
-                o.add(W[i] * max(c.values()) <= _q(prod_cap))
+                mm = max([c.get(e, 0) for e in demand] + [0])
+                o.add(W[i] * mm <= _q(prod_cap))
+                if mm > bitcap:
+                    o.add(W[i] == 0, z3.Not(Y[i]))
         expr = lambda e: z3.Sum([W[i] * c[e] for i, c in enumerate(columns) if c.get(e, 0) > 0] + [_q(0)])
     else:
         # A[i][j] : column i uses superset weight j
@@ -294,8 +305,12 @@ def mpe_min(columns, demand, k, wt=int, scale=None, col_factor=None, superset=No
         for w, r, y in zip(W, R, Y):
             o.add(w >= 0, r >= 0, z3.Implies(z3.Or(w > 0, r > 0), y))
         if prod_cap is not None:
+            bitcap = _bitcap(prod_cap)
             for i, c in enumerate(columns):
-                o.add(W[i] * max(c.values()) <= _q(prod_cap), R[i] * max(c.values()) <= _q(prod_cap))
+                mm = max([c.get(e, 0) for e in demand] + [0])
+                o.add(W[i] * mm <= _q(prod_cap), R[i] * mm <= _q(prod_cap))
+                if mm > bitcap:
+                    o.add(W[i] == 0, R[i] == 0, z3.Not(Y[i]))
         o.add(z3.Sum([z3.If(y, 1, 0) for y in Y] + [z3.IntVal(0)]) <= k)
         wexpr = lambda e: z3.Sum([W[i] * c[e] for i, c in enumerate(columns) if c.get(e, 0) > 0] + [_q(0)])
         rexpr = lambda e: z3.Sum([R[i] * c[e] * _q((col_factor or {}).get(i, 1)) for i, c in enumerate(columns) if c.get(e, 0) > 0] + [_q(0)])
@@ -503,8 +518,9 @@ def walk_cover_paths(G, S, T, limit=20000):
     return comp, paths
 
 
-def walk_cover_width(G, S=None, T=None, ignore=(), extra_required_sets=None):
-    """Minimum number of S-T walks covering every non-ignored edge of G (None if impossible)."""
+def walk_cover_width(G, S=None, T=None, ignore=(), extra_required_sets=None, required_nodes=None):
+    """Minimum number of S-T walks covering every non-ignored edge of G (None if impossible).
+    required_nodes: cover these nodes instead of the edges (a node is covered by any walk passing through its SCC)."""
     S = list(S if S is not None else sources(G)); T = list(T if T is not None else sinks(G))
     ignore = set(ignore)
     comp, paths = walk_cover_paths(G, S, T)
@@ -518,6 +534,8 @@ def walk_cover_width(G, S=None, T=None, ignore=(), extra_required_sets=None):
             d[("scc", comp[a[1]])] = 1
         cols.append(d)
     required = [("arc", a) for a in req_arcs] + [("scc", c) for c in req_sccs]
+    if required_nodes is not None:
+        required = [("scc", c) for c in sorted({comp[v] for v in required_nodes})]
     if not required:
         return 0
     return cover_min(cols, required)
